@@ -34,6 +34,8 @@ KERNEL_SPECS = [
     ("poly_c0", "poly", {"degree": 2, "coef0": 0, "gamma": 0.5}, False),     # a zero-valued parameter that differs from the default
     ("callable", "callable", None, False),
     ("pre_int", "precomputed", None, False),                                 # integer-typed symmetric matrix
+    ("pre_tiny", "precomputed", None, False),                                # PSD matrix of magnitude 1e-10
+    ("pre_huge", "precomputed", None, False),                                # PSD matrix of magnitude 1e8
     ("pre_psd", "precomputed", None, False),
     ("pre_indef", "precomputed", None, False),
 ]
@@ -46,7 +48,9 @@ METRIC_SPECS = [
     ("cosine", "cosine", None),
     ("pre_metric", "precomputed", None),
     ("pre_sym", "precomputed", None),
-    ("pre_intdist", "precomputed", None),                                    # integer-typed distances (hop counts)
+    ("pre_intdist", "precomputed", None),
+    ("pre_tinydist", "precomputed", None),                                   # distances of magnitude 1e-9
+    ("pre_hugedist", "precomputed", None),                                   # distances of magnitude 1e7                                    # integer-typed distances (hop counts)
 ]
 
 
@@ -107,6 +111,9 @@ def kernel_reference(tag, X, seed):
     if tag == "pre_int":
         A = sym_matrix(n, seed, "int")
         return {"kernel": "precomputed"}, A, A.astype(float)
+    if tag in ("pre_tiny", "pre_huge"):
+        A = sym_matrix(n, seed, "psd") * (1e-10 if tag == "pre_tiny" else 1e8)
+        return {"kernel": "precomputed"}, A, A
     ref = pairwise_kernels(X, metric=name, **(params or {}))
     kw = {"kernel": name}
     if params is not None:
@@ -127,6 +134,9 @@ def metric_reference(tag, X, seed):
     if tag == "pre_intdist":
         A = sym_matrix(n, seed, "intdist")
         return {"metric": "precomputed"}, A, A.astype(float)
+    if tag in ("pre_tinydist", "pre_hugedist"):
+        A = sym_matrix(n, seed, "metric") * (1e-9 if tag == "pre_tinydist" else 1e7)
+        return {"metric": "precomputed"}, A, A
     ref = pairwise_distances(X, metric=name, **(params or {}))
     kw = {"metric": name}
     if params is not None:
